@@ -243,3 +243,71 @@ def rule_kind_table(ctx):
     else:
         obs.append(ok('INTRO-KIND-TABLE', '__TypeKind/scrutinee', 'the deserialized string is matched as is', m.get('sp', fn.loc)))
     return obs
+
+
+# ================================================================================================
+# POST-HELPER — graphql_client::reqwest::post_graphql*: what is sent is build_query(variables), what is returned is Response<ResponseData>
+# ================================================================================================
+
+def _param_names(fn):
+    out = []
+    for p in fn.params:
+        pat = p.get('pat') if isinstance(p, dict) else None
+        out.append((pat or {}).get('name') if isinstance(pat, dict) else None)
+    return out
+
+
+def _is_param(fn, e, name):
+    while isinstance(e, dict) and e.get('k') in ('ref', 'wrap', 'unary') and 'e' in e:
+        e = e['e']
+    return isinstance(e, dict) and e.get('k') == 'path' and (e.get('res') or {}).get('r') == 'local' and fn.bind_names.get(e['res'].get('hid')) == name \
+        and not [s for s in fn.binds.get(e['res'].get('hid'), []) if s[0] == 'expr']
+
+
+@rule('POST-HELPER')
+def rule_post_helper(ctx):
+    obs = []
+    c = ctx.crate('client')
+    fns = [f for f in c.all_fns() if norm_path(f.path).startswith('graphql_client::reqwest::post_graphql') and not f.from_macro]
+    if not fns:
+        return [bad('POST-HELPER', 'floor', 'anchor-missing: no graphql_client::reqwest::post_graphql* helper in the analysed build')]
+    for fn in fns:
+        name = norm_path(fn.path).rsplit('::', 1)[1]
+        calls = [n for n in H.walk(fn.body) if n.get('k') in ('call', 'mcall')]
+        bq = [n for n in calls if any(p.endswith('GraphQLQuery::build_query') for p in H.callee_paths(n))]
+        if len(bq) != 1 or not _is_param(fn, (bq[0].get('args') or [None])[0], 'variables'):
+            obs.append(bad('POST-HELPER', name + '/body', 'the body is not build_query(variables) of the query type (%d build_query calls)' % len(bq), fn.loc,
+                           'a request body other than the operation\'s own document / variables is sent'))
+            continue
+        setters = [n for n in calls if n.get('k') == 'mcall' and any('RequestBuilder::' in p for p in H.callee_paths(n))
+                   and n['method'] in ('json', 'body', 'form', 'query', 'multipart')]
+        verb = [n for n in calls if n.get('k') == 'mcall' and any('Client::' in p for p in H.callee_paths(n)) and n['method'] in ('post', 'get', 'put', 'patch', 'delete', 'head', 'request')]
+        if len(verb) != 1 or verb[0]['method'] != 'post' or not _is_param(fn, (verb[0].get('args') or [None])[0], 'url'):
+            obs.append(bad('POST-HELPER', name + '/verb', 'the request is not client.post(url) (%s)' % [v['method'] for v in verb], fn.loc, 'GraphQL over HTTP: the body is not delivered'))
+        else:
+            obs.append(ok('POST-HELPER', name + '/verb', 'client.post(url)', verb[0].get('sp', fn.loc)))
+        if len(setters) != 1 or setters[0]['method'] != 'json':
+            obs.append(bad('POST-HELPER', name + '/body', 'the body is set by %s' % [s['method'] for s in setters], fn.loc, 'the QueryBody is not sent as the JSON object the property describes'))
+        else:
+            arg = (setters[0].get('args') or [None])[0]
+            srcs = [n for n in H.walk_through_locals(fn, arg) if n is bq[0]] if arg is not None else []
+            direct = arg
+            while isinstance(direct, dict) and direct.get('k') in ('ref', 'wrap') and 'e' in direct:
+                direct = direct['e']
+            whole = direct is bq[0] or (isinstance(direct, dict) and direct.get('k') == 'path' and (direct.get('res') or {}).get('r') == 'local' and
+                                        [s for s in fn.binds.get(direct['res'].get('hid'), []) if s[0] == 'expr' and s[1] is bq[0]])
+            if srcs and whole:
+                obs.append(ok('POST-HELPER', name + '/body', '.json(&build_query(variables))', setters[0].get('sp', fn.loc)))
+            elif srcs:
+                obs.append(bad('POST-HELPER', name + '/body', 'only a part / a transformation of the QueryBody is sent', setters[0].get('sp', fn.loc),
+                               'members of the request body are missing'))
+            else:
+                obs.append(bad('POST-HELPER', name + '/body', 'the value sent does not come from build_query', setters[0].get('sp', fn.loc), 'wrong body'))
+        # the answer: Response<Q::ResponseData> read with .json()
+        ret = (fn.d.get('ret') or fn.d.get('sig') or '')
+        readers = [n for n in calls if n.get('k') == 'mcall' and any('Response::' in p for p in H.callee_paths(n)) and n['method'] in ('json', 'text', 'bytes', 'error_for_status')]
+        if [r for r in readers if r['method'] == 'json'] and not [r for r in readers if r['method'] in ('text', 'bytes')]:
+            obs.append(ok('POST-HELPER', name + '/answer', 'the answer is read with .json() into the declared Response type', fn.loc))
+        else:
+            obs.append(undecided('POST-HELPER', name + '/answer', 'the answer is read by %s' % [r['method'] for r in readers], fn.loc))
+    return obs
